@@ -270,6 +270,9 @@ func (t *Toolbox) RunRaw(name string, in []byte, opt RunOpt) *Result {
 		res.Order = append(res.Order, n)
 	}
 	t.mu.Lock()
+	if t.walls == nil {
+		t.walls = map[string][]time.Duration{}
+	}
 	t.walls[name] = append(t.walls[name], res.Wall)
 	t.mu.Unlock()
 	return res
